@@ -114,6 +114,11 @@ class BaseSDESolver(metaclass=better_abc.ABCMeta):
         for out_t in ts[1:]:
             while curr_t < out_t:
                 next_t = min(curr_t + step_size, ts[-1])
+                if ts[-1] - next_t < 1e-3 * step_size:
+                    # The grid is accumulated in floating point: a remainder of rounding-error size is not a step of
+                    # its own. (A near-zero-length step is not the identity for reversible solvers, and the reversed
+                    # solve would have its remainder at the other end.)
+                    next_t = ts[-1]
                 if self.adaptive:
                     # Take 1 full step.
                     next_y_full, _ = self.step(curr_t, next_t, curr_y, curr_extra)
